@@ -1,11 +1,16 @@
 #!/usr/bin/env python3
-import os, sys
+"""Offline setup: warm the build cache (libcoap variants + harnesses) for every check claimed in MANIFEST.json."""
+import json, os, sys
 VERIF = os.path.dirname(os.path.dirname(os.path.abspath(__file__)))
 sys.path.insert(0, os.path.join(VERIF, "py"))
 import build, check
+claimed = {c["property_id"] for c in json.load(open(os.path.join(VERIF, "MANIFEST.json")))["checks"]}
 for pid, stages in sorted(check.REG.items()):
     for st in stages:
-        if st.get("custom_build"):
-            continue
-        check.build_stage(st)
+        try:
+            check.build_stage(st)
+        except SystemExit as e:
+            if pid in claimed:
+                raise
+            print("setup: skipping unclaimed %s (%s)" % (pid, e))
 print("setup ok")
